@@ -337,6 +337,21 @@ class ConcatScenario(BaseScenario):
     def gen_op(self, w: ConcatWorld, rng, op_id):
         weights = self.weights()
         kinds = sorted(weights)
+        hint = getattr(w, "edit_copy_next", None)
+        if hint:
+            # right after a group was copied into the other workspace: a value edit on a hole of the COPY that is not the last one of
+            # its label (the source must not notice)
+            w.edit_copy_next = None
+            sub = rng.getrandbits(64)
+            orng = random.Random(H(sub, "args"))
+            cands = [(g, hu, n) for g, hu in w.holes() for n, d in w.groups[g]["holes"][hu]["data"].items() if self._plain(n, d)]
+            mine = [c for c in cands if c[0] in hint]
+            first = [c for c in mine if any(c2[2] == c[2] and c2[0] == c[0] and c2[1] != c[1] for c2 in mine)] or mine
+            if first and orng.random() < 0.7:
+                g, hu, n = first[0] if orng.random() < 0.6 else first[orng.randrange(len(first))]
+                w.sim.probe("edit_right_after_cross_copy")
+                return {"id": op_id, "k": "set_values", "sub": sub, "keep": False, "t": {"g": g, "hole": hu, "name": n, "fb": cands.index((g, hu, n))},
+                        "mode": "exact", "dseed": orng.getrandbits(32), "uncached": True}
         for _ in range(40):
             kind = rng.choices(kinds, [weights[k] for k in kinds])[0]
             sub = rng.getrandbits(64)
@@ -655,12 +670,18 @@ class ConcatScenario(BaseScenario):
             if not w.suspect and kind in self.MUT and (w.cfg.get("peek", "always") == "always" or kind == "rename_data"
                                                               or random.Random(H(op["sub"], "peek")).random() < 0.35):     # (rename_data: known-finding canary, judged where it happens)
                 w.check_all(f"{kind}:after op")
+            if op.get("uncached") and not w.suspect:
+                # every hole is read again by an observer that holds nothing: references dropped, a collection, fresh entities
+                w.slots.clear()
+                sim.collect("uncached_read")
+                w.check_gc()
+                w.check_all(f"{kind}:uncached read")
         except Violation as vio:
             if True:
                 # an edit on one side of a copy that shows on the other side is C12's "edits of the copy do not show through"
                 other = getattr(vio, "group", None)
                 mine = getattr(w, "last_group", None)
-                if self.prop == "C12" and other and mine and other != mine and frozenset((other, mine)) in w.copy_pairs:
+                if self.prop == "C12" and other and mine and other != mine and self._related(w, other, mine):
                     raise Violation("C12", "edit_shows_through", f"{kind} on a drillhole of {mine.split(':')[0]} changed the other side of the group copy: {vio.detail}",
                                     {"op": kind, "cls": "DrillholeGroup", "field": vio.tag}) from None
                 raise
@@ -669,6 +690,20 @@ class ConcatScenario(BaseScenario):
             w.check_gc()
             w._cache = None
         return outcome
+
+    @staticmethod
+    def _related(w, a, b) -> bool:
+        """a and b are copies of one another, directly or through other copies (groups that were removed since included)."""
+        seen, todo = {a}, [a]
+        while todo:
+            cur = todo.pop()
+            for pair in w.copy_pairs:
+                if cur in pair:
+                    for other in pair:
+                        if other not in seen:
+                            seen.add(other)
+                            todo.append(other)
+        return b in seen
 
     # ---- creation
     def do_mk_hole(self, w, op):
@@ -1220,6 +1255,8 @@ class ConcatScenario(BaseScenario):
         w.created_groups = {nguid}
         w.touched = {nguid}
         w.sim.probe("copy_group_cross" if cross else "copy_group_same")
+        if cross and self.prop == "C12":
+            w.edit_copy_next = {nguid}
         return "ok"
 
     # ---- views
